@@ -422,7 +422,10 @@ def main_check(h, tier, seed, replay=None):
         for sk, sv in (obs.get('stats') or {}).items() if isinstance(obs, dict) else []:
             stats[sk] = stats.get(sk, 0) + sv
         if len(samples) < 3 and i % max(1, len(cases) // 3) == 0:
-            samples.append(_jsonable(h.sample_view(case, obs)))
+            try:
+                samples.append(_jsonable(h.sample_view(case, obs)))
+            except Exception:       # a sample is illustration only
+                samples.append(_jsonable({'case': case}))
     report['direct']['cases'] = len(cases)
     anchored_cov = {}
     if cov is not None:
@@ -548,8 +551,12 @@ def main_check(h, tier, seed, replay=None):
         'assumptions': h.ASSUMPTIONS,
         'wall_s': round(wall, 2), 'violations': len(new_viol) + (1 if (broken and not new_viol) else 0),
     }
-    os.makedirs(os.path.join(VERIF, 'evidence'), exist_ok=True)
-    json.dump(_jsonable(ev), open(os.path.join(VERIF, 'evidence', pid + '.json'), 'w'), indent=1, sort_keys=True)
+    if os.environ.get('VERIF_REPO'):
+        # development run against a scratch worktree (seeded change, refactoring): never touches the evidence of /repo
+        json.dump(_jsonable(ev), open(os.path.join(WORK, pid, 'evidence-scratch.json'), 'w'), indent=1, sort_keys=True)
+    else:
+        os.makedirs(os.path.join(VERIF, 'evidence'), exist_ok=True)
+        json.dump(_jsonable(ev), open(os.path.join(VERIF, 'evidence', pid + '.json'), 'w'), indent=1, sort_keys=True)
     json.dump(_jsonable(report), open(os.path.join(WORK, pid, 'report.json'), 'w'), indent=1, default=str)
     if exit_code == 0:
         shutil.rmtree(workdir, ignore_errors=True)
